@@ -198,11 +198,11 @@ def opaque_token(tag, rng, small=False):
     if tag == "TBigDecimal":
         return idk(2 ** rng.randrange(1, 100), 6)
     if tag == "TIpNetwork":
-        i = rng.choice([0, 1, 2 * (2 ** 32 - 1), 2 * rng.randrange(2 ** 32), 2 * rng.randrange(2 ** 127) + 1,
-                        2 * 0xC0A80105, 2 * 0x0A000001])      # 192.168.1.5, 10.0.0.1
-        # prefix: k = 0 full length, else k - 1 (shorter than the address: host bits set)
-        k = rng.choice([0, 0, 25, 9, 17, 1] if i % 2 == 0 else [0, 0, 65, 49, 1])
-        return "%d" % i if k == 0 else "%d~%d" % (i, k)
+        # id = (2 * address [+ 1 for IPv6]) * 130 + p; p = 0: full-length prefix, else prefix length p - 1 (host bits set)
+        a = rng.choice([0, 1, 2 * (2 ** 32 - 1), 2 * rng.randrange(2 ** 32), 2 * rng.randrange(2 ** 118) + 1,      # (the id must fit u128)
+                        2 * 0xC0A80105, 2 * 0x0A000001])      # .. 192.168.1.5, 10.0.0.1
+        p = rng.choice([0, 0, 25, 9, 17, 1] if a % 2 == 0 else [0, 0, 65, 49, 1])
+        return "%d" % (a * 130 + p)
     if tag == "TMacAddress":
         return str(rng.choice([0, 2 ** 48 - 1, rng.randrange(2 ** 48)]))
     raise KeyError(tag)
